@@ -140,7 +140,7 @@ func sceneCtxMsg(op int, o ReqOpts) {
 	if err != nil {
 		vf.Reach("rejected")
 		chk("C05 C09", vf.All(post.State == pre.State, post.Timeout == pre.Timeout, post.RepeatedFrequency == pre.RepeatedFrequency, post.RepeatedTotal == pre.RepeatedTotal), "rejected-changes-nothing")
-		chk("C11 C10 C08 C02 C01 C12 C16", vf.All(k.HasRequestBatchExpiration(ctx, id) == hadExp, k.HasNewRequestBatch(ctx, id) == hadNew), "rejected-queues-unchanged")
+		chk("C11 C10 C08 C02 C01 C12 C16 C04", vf.All(k.HasRequestBatchExpiration(ctx, id) == hadExp, k.HasNewRequestBatch(ctx, id) == hadNew), "rejected-queues-unchanged")
 		return
 	}
 	vf.Reach("accepted")
@@ -148,23 +148,23 @@ func sceneCtxMsg(op int, o ReqOpts) {
 	switch op {
 	case opPause:
 		chk("C09 C10", vf.All(pre.Repeated, pre.State == types.RUNNING, post.State == types.PAUSED), "pause-only-repeated-running")
-		chk("C11 C10 C08 C02 C01 C12 C16", vf.All(k.HasRequestBatchExpiration(ctx, id) == hadExp, k.HasNewRequestBatch(ctx, id) == hadNew), "pause-keeps-queues")
+		chk("C11 C10 C08 C02 C01 C12 C16 C04", vf.All(k.HasRequestBatchExpiration(ctx, id) == hadExp, k.HasNewRequestBatch(ctx, id) == hadNew), "pause-keeps-queues")
 	case opStart:
 		chk("C09", vf.All(pre.State == types.PAUSED, post.State == types.RUNNING), "start-only-paused")
 		if sit == 2 {
-			chk("C11 C10 C08 C02 C01 C12 C16", newBatchAt(k, ctx, id, s.H), "start-of-idle-context-queues-batch-now")
+			chk("C11 C10 C08 C02 C01 C12 C16 C04", newBatchAt(k, ctx, id, s.H), "start-of-idle-context-queues-batch-now")
 		} else {
-			chk("C11 C10 C08 C02 C01 C12 C16", vf.All(k.HasRequestBatchExpiration(ctx, id) == hadExp, k.HasNewRequestBatch(ctx, id) == hadNew), "start-keeps-pending-event")
+			chk("C11 C10 C08 C02 C01 C12 C16 C04", vf.All(k.HasRequestBatchExpiration(ctx, id) == hadExp, k.HasNewRequestBatch(ctx, id) == hadNew), "start-keeps-pending-event")
 		}
 	case opKill:
 		chk("C09", vf.All(pre.Repeated, post.State == types.COMPLETED), "kill-only-repeated")
-		chk("C11 C10 C08 C02 C01 C12 C16", vf.All(k.HasRequestBatchExpiration(ctx, id) == hadExp, k.HasNewRequestBatch(ctx, id) == hadNew), "kill-keeps-queues")
+		chk("C11 C10 C08 C02 C01 C12 C16 C04", vf.All(k.HasRequestBatchExpiration(ctx, id) == hadExp, k.HasNewRequestBatch(ctx, id) == hadNew), "kill-keeps-queues")
 	case opUpdate:
 		chk("C09", vf.All(pre.State != types.COMPLETED, post.State == pre.State), "update-never-on-completed")
 		chk("C10 C11 C08", vf.Implies(post.Repeated, post.RepeatedFrequency >= uint64(post.Timeout)), "frequency-at-least-timeout")
 		// a timeout set by the message is within the maximum in force; otherwise the timeout is kept
 		chk("C08", vf.And(post.Timeout >= 1, vf.Or(vf.And(uTimeout != 0, post.Timeout == uTimeout && uTimeout <= vf.Params(ctx).MaxRequestTimeout), vf.And(uTimeout == 0, post.Timeout == pre.Timeout))), "timeout-within-bounds")
-		chk("C11 C10 C08 C02 C01 C12 C16", vf.All(k.HasRequestBatchExpiration(ctx, id) == hadExp, k.HasNewRequestBatch(ctx, id) == hadNew), "update-keeps-queues")
+		chk("C11 C10 C08 C02 C01 C12 C16 C04", vf.All(k.HasRequestBatchExpiration(ctx, id) == hadExp, k.HasNewRequestBatch(ctx, id) == hadNew), "update-keeps-queues")
 		chk("C06", vf.All(len(post.Providers) >= 1, post.ServiceFeeCap.AmountOf(Denom).IsPositive()), "providers-and-cap-stay-valid")
 		if post.RepeatedTotal > maxTotal {
 			maxTotal = post.RepeatedTotal
@@ -172,7 +172,7 @@ func sceneCtxMsg(op int, o ReqOpts) {
 		unbounded = vf.Or(unbounded, post.RepeatedTotal == -1)
 	}
 	// Q after the step
-	chk("C11 C10 C08 C02 C01 C12 C16", queueInv(k, ctx, id, post, s.H, s.ExpH, func() int64 {
+	chk("C11 C10 C08 C02 C01 C12 C16 C04", queueInv(k, ctx, id, post, s.H, s.ExpH, func() int64 {
 		if sit == 2 {
 			return s.H
 		}
